@@ -857,6 +857,26 @@ def gen_length_programs():
             op_[side] = {"shape": "list", "v": [bad_id]}
             out.append({"dev": "evo", "wl": {"max_volume": "950", "max_int": False, "auto_split": True, "diti_mode": False},
                         "labware": [big, dict(big, name="Q")], "ops": [op_], "family": "lengths"})
+    # the special families also with fixed seeds of their own (independent of the main random stream, so that what they
+    # pin stays pinned when other generators change)
+    import random as _random
+
+    for k_ in range(8):
+        for fn in (gen_drain_program, gen_dtype_program, gen_dilute_program, gen_twins_program, gen_wide_program):
+            out.append(fn(_random.Random(1000 + k_)))
+    # troughs created through the base class, several virtual rows and columns, addressed through every row, on both devices;
+    # distribute from a column other than the first
+    vt = {"kind": "trough", "name": "water", "vrows": 4, "cols": 3, "min": "0", "max": "100000", "init": {"shape": "list", "v": ["30000", "20000", "10000"]}, "via_labware": True}
+    tt = {"kind": "trough", "name": "stocks", "vrows": 8, "cols": 3, "min": "0", "max": "100000", "init": {"shape": "list", "v": ["30000", "20000", "10000"]}}
+    pp = {"kind": "plate", "name": "MTP", "rows": 4, "cols": 3, "min": "0", "max": "5000", "init": {"shape": "scalar", "v": "100"}}
+    for src_ in (vt, tt):
+        ops = [{"op": "transfer", "src": 0, "swells": {"shape": "list", "v": ["B02", "D03", "A01", "C02"]}, "dst": 1, "dwells": {"shape": "list", "v": ["A01", "B02", "C03", "D01"]},
+                "vols": {"shape": "list", "v": ["10", "20", "30", "40"]}, "label": "rows", "ws": 1},
+               {"op": "distribute", "src": 0, "col": 1, "dst": 1, "dwells": {"shape": "list", "v": ["A02", "B02", "C01"]}, "volume": "15", "label": "from column 2"},
+               {"op": "distribute", "src": 0, "col": 2, "dst": 1, "dwells": {"shape": "list", "v": ["D03"]}, "volume": "25", "label": "from column 3"},
+               {"op": "aspirate", "lw": 0, "wells": {"shape": "list", "v": ["D02", "A03"]}, "vols": {"shape": "list", "v": ["5", "7"]}, "label": None, "kw": None}]
+        out.append({"dev": "evo", "wl": {"max_volume": "950", "max_int": False, "auto_split": True, "diti_mode": False},
+                    "labware": [src_, pp], "ops": ops, "family": "lengths"})
     # reagent distributions whose volume is just above max_volume / k: the multi-dispense count must be floored to k - 1
     for mv, vols in (("950", ["7601/16", "1267/4", "3801/16", "475", "1901/4"]), ("200", ["1601/16", "401/8", "100"])):
         ops = [{"op": "distribute", "src": 0, "col": 0, "dst": 1, "dwells": {"shape": "list", "v": ["A01", "B01", "C01"]}, "volume": v,
